@@ -24,4 +24,13 @@ var props = []Prop{
 		Bounds:  "masks and ids fully symbolic (all 2^256 / 2^64 masks, all 256 / 64 ids); All/Without with at most 4/3 ids; logic filters nested to depth 2 (all shapes) and depth 3 (spines)",
 		Outside: "All() with more than 4 ids; logic nesting deeper than 3; tiny build behaviour for ids >= 64",
 	},
+	{
+		ID:    "C12",
+		Level: "model_checking",
+		Harnesses: append(hs("ecs", true, 4, "HC12_Subscribes", "HC12_SubscriptionBits"),
+			append(hs("listener", true, 4, "HC12_ListenerCopy", "HC12_Callback"), H{Pkg: "listener", Fn: "HC12_Dispatch"}, H{Pkg: "listener", Fn: "HC12_Dispatch", Tags: "tiny", Tier: "thorough"})...),
+		Conform: smokeConform,
+		Bounds:  "(a) subscribes()/listener copy/subscription bits: all triggers, masks, nil-ness and relation ids (complete); Dispatch: 3 sub-listeners with symbolic (S,C), three construction orders, one symbolic event",
+		Outside: "Dispatch with more than 3 sub-listeners",
+	},
 }
